@@ -6,7 +6,7 @@ events.  Per-arm learned state is read generically from the hooked implementor (
 the arm, arm models flattened to arrays; status and cross-arm normalised values excluded) before and after
 every warm_start, and behaviourally (deterministic expectations of a warm-started arm equal its source's).
 
-As built: Extras: feature vectors scaled by 1e-9 / 1e-12 / 1e9 (cosine distance is scale invariant), exact distance == threshold decided with scipy's own values.
+As built: Extras: feature vectors scaled by 1e-9 / 1e-12 / 1e9 (cosine distance is scale invariant), exact distance == threshold decided with scipy's own values; 1/45 of the cases have 257-336 arms.
 """
 from mon import env  # noqa: F401
 import copy
@@ -25,8 +25,9 @@ RULE = ("8 warm-start capable policies without neighbourhood policy x 3-7 arms x
         "distance <= threshold, idempotence, monotonicity in the quantile (deep copies), cold_arms == ledger, no aliasing with "
         "the source. Non-trivial = a call that warm-starts >=1 arm and leaves >=1 cold, or zero/duplicate vectors present; "
         "distinct = (policy, #arms, quantile, warm/cold pattern, history skeleton)")
-BUDGET = {"quick": {"cases": 8 * 60, "shards": 8}, "thorough": {"cases": 8 * 5000, "shards": 16, "wall_s": 2400}}
-MIN = {"quick": {"evaluations": 1500, "nontrivial": 100}, "thorough": {"evaluations": 100000, "nontrivial": 5000}}
+BUDGET = {"quick": {"cases": 8 * 180, "shards": 16}, "thorough": {"cases": 8 * 5000, "shards": 16, "wall_s": 3600}}
+MIN = {"quick": {"evaluations": 1500, "nontrivial": 100, "counters": {"many_arm_cases": 16}},
+       "thorough": {"evaluations": 100000, "nontrivial": 5000, "counters": {"many_arm_cases": 600}}}
 ASSUMPTIONS = ["distance == threshold exactly (same scipy values) must warm-start; other comparisons within 1e-9 of equality are not judged",
                "at least two non-zero feature vectors (otherwise the library has no distance to take a quantile of)"]
 
@@ -81,7 +82,16 @@ def expect(features, q, trained, cold):
     """reference decision: {cold arm: (set of admissible sources, must/may/mustnot)}"""
     arms = [a for a, _ in features]
     f = dict((a, v) for a, v in features)
-    dist = {a: {b: (SELF if a == b else cosine(f[a], f[b])) for b in arms} for a in arms}
+    if len(arms) > 40:
+        # hundreds of arms: one scipy call for the whole matrix (the same routine, the same per-pair values)
+        from scipy.spatial.distance import cdist
+        F = np.asarray([f[a] for a in arms], dtype=float)
+        M = cdist(F, F, metric="cosine")
+        M[np.isnan(M)] = SELF
+        np.fill_diagonal(M, SELF)
+        dist = {a: dict(zip(arms, (float(v) for v in M[i]))) for i, a in enumerate(arms)}
+    else:
+        dist = {a: {b: (SELF if a == b else cosine(f[a], f[b])) for b in arms} for a in arms}
     closest = [min(dist[a].values()) for a in arms if min(dist[a].values()) != SELF]
     thr = float(np.quantile(closest, q))
     out = {}
@@ -106,14 +116,20 @@ def run_case(rs, ctx):
     kind = POLICIES[ctx.index % 8]
     labels = gen.pick(rs, ["int", "str", "float"])
     n_arms = int(rs.integers(3, 8))
-    cfg = gen.gen_cfg(rs, kind, "none", labels=labels, n_arms=n_arms, deterministic=True)
+    many = (ctx.index // 8) % 45 == 7  # hundreds of arms (more than any plausible internal block size)
+    cfg = gen.gen_cfg(rs, kind, "none", labels="int" if many else labels, n_arms=n_arms, deterministic=True)
+    if many:
+        n_arms = 257 + int(rs.integers(0, 80))
+        cfg["arms"] = list(range(n_arms))
+        ctx.count("many_arm_cases")
     nf = 2
     sh = gen.Shadow(cfg, nf)
     # first fit leaves some arms unobserved
-    first = gen.gen_ops(rs, cfg, sh, 1, ["fit"], train_rows=(6, 16))
+    first = gen.gen_ops(rs, cfg, sh, 1, ["fit"], train_rows=(2 * n_arms, 3 * n_arms) if many else (6, 16))
     keep = [a for a in sh.arms if rs.integers(3) > 0] or [sh.arms[0]]
     first[0]["d"] = [a if a in keep else gen.pick(rs, keep) for a in first[0]["d"]]
-    ops = first + gen.gen_ops(rs, cfg, sh, int(rs.integers(2, 9)), KINDS, train_rows=(1, 6)) + gen.gen_ops(rs, cfg, sh, 1, ["warm_start"])
+    ops = first + gen.gen_ops(rs, cfg, sh, 2 if many else int(rs.integers(2, 9)), KINDS[1:] if many else KINDS, train_rows=(1, 6)) + \
+        gen.gen_ops(rs, cfg, sh, 1, ["warm_start"])
     # hostile feature dictionaries: zero vectors and duplicates
     m = gen.build(cfg)
     observed, warm = set(), set()
@@ -124,9 +140,11 @@ def run_case(rs, ctx):
         wit = {"cfg": cfg, "ops": ops[:step + 1]}
         if k == "warm_start":
             feats = [[a, list(f)] for a, f in op["features"]]
+            if many:
+                feats = [[a, [float(v) for v in rs.integers(-6, 7, 3)]] for a, _ in feats]
             mode = int(rs.integers(4))
             if mode == 1 and len(feats) > 2:
-                feats[int(rs.integers(len(feats)))][1] = [0.0, 0.0]
+                feats[int(rs.integers(len(feats)))][1] = [0.0] * len(feats[0][1])
             elif mode == 2 and len(feats) > 2:
                 i, j = rs.permutation(len(feats))[:2]
                 feats[int(i)][1] = [2.0 * v for v in feats[int(j)][1]]
@@ -150,7 +168,7 @@ def run_case(rs, ctx):
             before = all_states(m, kind)
             # monotonicity in the quantile, on deep copies
             prev = None
-            for q_ in (0.0, 0.25, 0.5, 0.75, 1.0):
+            for q_ in ((0.25, 1.0) if many else (0.0, 0.25, 0.5, 0.75, 1.0)):
                 mm = copy.deepcopy(m)
                 try:
                     mm.warm_start({a: list(f) for a, f in feats}, q_)
